@@ -112,6 +112,9 @@ class ArrayWrapField(CborField):
 
     def getfield(self, pkt, s):
         (s, lst) = CborField.getfield(self, pkt, s)
+        if not isinstance(lst, (list, tuple)):
+            # a byte string also iterates as integers
+            raise DecodeError('Item for {} is not an array: {!r}'.format(self.name, lst))
         (rem, val) = self.fld.getfield(pkt, lst)
         if rem:
             pass
